@@ -92,6 +92,25 @@ class _FalsyHandler:
         self._fn(err)
 
 
+class _HandlerWithErrorAttr:
+    """A callable handler object that happens to have an attribute called `error` (last error seen)."""
+
+    def __init__(self, fn, as_method):
+        self._fn = fn
+        if as_method:
+            self.error = self._not_the_handler
+        else:
+            self.error = None
+        self.misrouted = 0
+
+    def _not_the_handler(self, *args, **kwargs):
+        self.misrouted += 1
+
+    def __call__(self, err):
+        self.error = None if not callable(self.error) else self.error
+        return self._fn(err)
+
+
 class HandlerBoom(Exception):
     """Raised (once) by a faulty application-supplied error handler."""
 
@@ -129,6 +148,8 @@ def run_reader(wire: bytes, cfg: dict, tr: dict, keep_objs=False, use_read=False
                 raise HandlerBoom("the application's handler failed once")
             if cfg.get("handler_kind") == "returns_value":
                 return len(out.events)  # e.g. the character count of a log write
+            if cfg.get("handler_kind") == "returns_false":
+                return False
             return None
 
         kind = cfg.get("handler_kind", "function")
@@ -137,6 +158,8 @@ def run_reader(wire: bytes, cfg: dict, tr: dict, keep_objs=False, use_read=False
         elif kind == "method":
             # a bound method of an object nobody else refers to (e.g. Monitor().on_error)
             kw["errorhandler"] = _MethodHandler(handler).handle
+        elif kind in ("error_attr_data", "error_attr_method"):
+            kw["errorhandler"] = _HandlerWithErrorAttr(handler, kind == "error_attr_method")
         else:
             kw["errorhandler"] = handler
     use_read = use_read or cfg.get("drive") == "read"
@@ -192,6 +215,27 @@ def run_reader(wire: bytes, cfg: dict, tr: dict, keep_objs=False, use_read=False
                 out.events.append(("D", raw))
                 if keep_objs:
                     out.objs.append(parsed)
+                n += 1
+                if n > max_items:
+                    raise SimBudgetExceeded(f"more than {max_items} items delivered")
+        elif cfg.get("resume_after_raise"):
+            # the application holds ONE iterator, catches a protocol error raised under ERR_RAISE and
+            # goes on with next(it): frames after the rejected one must not be disturbed
+            from checks.common import proto_errors  # pylint: disable=import-outside-toplevel
+
+            it = iter(ubr)
+            while True:
+                try:
+                    raw, parsed = next(it)
+                except StopIteration:
+                    break
+                except proto_errors() as err:
+                    out.events.append(("E",) + canon_exc(err))
+                    if len(out.events) > max_items * 2:
+                        raise SimBudgetExceeded("errors without end") from err
+                    continue
+                out.items.append((raw, canon_parsed(parsed)))
+                out.events.append(("D", raw))
                 n += 1
                 if n > max_items:
                     raise SimBudgetExceeded(f"more than {max_items} items delivered")
